@@ -63,6 +63,7 @@ int main(int argc, char **argv) {
             return 2;
         f >> plan;
     }
+    runOptions() = plan.value("options", json::object());
     const std::string replayDir = plan.value("replay_dir", std::string("."));
     const std::string tag = plan.value("tag", std::string("algo"));
     const size_t maxFail = plan.value("max_fail", 3);
